@@ -1,7 +1,7 @@
 """Pools of individually valid, pre-serialised data units per *family*, cut out of
 real encoder output, and assembly of abstract histories into byte strings.
 
-History item (JSON-able):  {"k": kind, "pn": int or None, "off": op or None, "offv": int or None}
+History item (JSON-able):  {"k": kind, "pn": int or None, "off": op or None, "offv": int or None, "fxy": [x, y] or None (fragment offsets override)}
 kinds: SH, SH2 (header differing in one field), PIC, F0, "FS:<cnt>:<start>", PAD, AUX, EOS,
        FOREIGN (picture of the other profile)
 offset ops: next0, nextwrong, nextsmall, prevwrong, prev0
@@ -143,6 +143,8 @@ def assemble(fam, hist):
         if code in vc2util.FRAGMENT_CODES:
             cnt = struct.unpack(">H", u[19:21])[0]
             if cnt:
+                if it.get("fxy") is not None:
+                    u[21:25] = struct.pack(">HH", it["fxy"][0] & 0xFFFF, it["fxy"][1] & 0xFFFF)
                 x, y = struct.unpack(">HH", u[21:25])
         length = len(u)
         nxt = 0 if code == 0x10 else length
